@@ -197,6 +197,30 @@ def _stable_operand(e: ast.AST, rebound: Set[str]) -> bool:
     return False
 
 
+
+class _SplitChained(ast.NodeTransformer):
+    """a = b = E  ->  a = E; b = E  (E a name / constant / attribute chain)  or  b = E; a = b  (E computed): one binding
+    per statement, so that the definition-use helpers see each of them."""
+
+    def _simple(self, e):
+        return isinstance(e, (ast.Name, ast.Constant)) or (isinstance(e, ast.Attribute) and self._simple(e.value))
+
+    def visit_Assign(self, node):
+        if len(node.targets) < 2 or not all(isinstance(t, ast.Name) for t in node.targets):
+            return node
+        import copy
+
+        if self._simple(node.value):
+            out = [ast.copy_location(ast.Assign(targets=[t], value=copy.deepcopy(node.value)), node) for t in node.targets]
+        else:
+            last = node.targets[-1]
+            out = [ast.copy_location(ast.Assign(targets=[last], value=node.value), node)]
+            out += [ast.copy_location(ast.Assign(targets=[t], value=ast.Name(id=last.id, ctx=ast.Load())), node) for t in node.targets[:-1]]
+        for o in out:
+            ast.fix_missing_locations(o)
+        return out
+
+
 class _SplatLiterals(ast.NodeTransformer):
     """f(*t) with `t = (a, b, c)` bound once  ->  f(a, b, c);   f(**d) with `d = {"k": v}` / `d = dict(k=v)` bound
     once  ->  f(k=v).  Only when the packed operands are stable (see _stable_operand) and the pack itself is not
@@ -301,7 +325,7 @@ class Program:
                 tree = ast.parse(src, filename=str(path))
             except SyntaxError as e:
                 raise AnalysisError(f"cannot parse {rel}: {e}")
-            tree = _SplatLiterals().visit(_UnpackLiteralGen().visit(tree))
+            tree = _SplatLiterals().visit(_UnpackLiteralGen().visit(_SplitChained().visit(tree)))
             set_parents(tree)
             mi = ModuleInfo(
                 name=name,
